@@ -169,7 +169,7 @@ class JsonRPC:
         :returns: flask response
         """
 
-        if not flask.request.is_json:
+        if flask.request.mimetype not in pjrpc.common.REQUEST_CONTENT_TYPES:
             raise exceptions.UnsupportedMediaType()
 
         try:
